@@ -76,6 +76,20 @@ func init() {
 				}
 			}
 		}
+		// a matrix handed over lazily transposed, as the lower-rank, the equal-rank and the higher-rank operand
+		for _, pr := range []struct {
+			a, b []int
+			lazy string
+		}{{[]int{2, 2, 3}, []int{2, 3}, "b"}, {[]int{3, 2}, []int{2, 3, 2}, "a"}, {[]int{2, 3}, []int{2, 3}, "a"}, {[]int{2, 3}, []int{1, 3}, "b"}, {[]int{3, 1}, []int{3, 2}, "a"}, {[]int{2, 3}, []int{3}, "a"}} {
+			for _, mode := range []string{"multi", "uni"} {
+				p.Jobs = append(p.Jobs, Job{Harness: "ops.H_C14", Case: map[string]interface{}{"a": pr.a, "b": pr.b, "mode": mode, "dtype": "float32", "lazy": pr.lazy}})
+			}
+		}
+		// operands of different element types, either one stretched
+		for i, pr := range [][2][]int{{{3, 1}, {1, 4}}, {{2, 1, 2}, {3, 1}}, {{2}, {2, 2}}, {{2, 2}, {2}}, {{1}, {2}}, {{2, 2}, {2, 2}}, {{2}, {3}}} {
+			p.Jobs = append(p.Jobs, Job{Harness: "ops.H_C14_mixed", Case: map[string]interface{}{"a": pr[0], "b": pr[1], "dtypeB": []string{"bool", "int64", "float64", "uint8"}[i%4]}})
+			p.Jobs = append(p.Jobs, Job{Harness: "ops.H_C14_mixed", Case: map[string]interface{}{"a": pr[1], "b": pr[0], "dtypeB": []string{"int64", "bool", "uint8", "float64"}[i%4]}})
+		}
 		// a few larger extents
 		for _, pr := range [][2][]int{{{4, 1}, {1, 4}}, {{3, 1, 4}, {4}}, {{4}, {4, 4}}, {{2, 4}, {4, 2}}, {{1, 4, 1}, {3, 1, 2}}, {{4}, {2}}, {{2, 3}, {4, 3}}, {{9}, {3}}} {
 			for _, mode := range []string{"multi", "uni"} {
